@@ -45,6 +45,9 @@ META = {
 SIGMA_FRACTION = 0.5     # gross-error bound for the stripe-count oracle, in units of the local noise
 
 
+shrink_hints = bw.shrink_hints
+
+
 def prepare():
     bw.setup()
 
@@ -219,6 +222,53 @@ def _case_body(ch, out, cfg, content, hot, line, nvar, fault_kind, other_layout,
         return out
     nstripes = len(r0.layout) if r0.layout else 1
 
+    # ---- one worker failure
+    if fault_kind != "none":
+        holders = sorted(n for n, c in r0.worker_yields.items() if n != "main" and c > 0)
+        if holders:
+            tname = holders[ch.draw("fault_task", len(holders))]
+            use_line = bool(line) and ch.chance("fault_at_line", 1, 2) and r0.worker_lines.get(tname, 0) > 0
+            if use_line:
+                k = ch.draw("fault_line", r0.worker_lines[tname])
+                f = dict(kind=fault_kind, task=tname, at="line", k=k, arg=ch.draw("exc_type", 4))
+            else:
+                k = ch.draw("fault_yield", r0.worker_yields[tname])
+                f = dict(kind=fault_kind, task=tname, at="yield", k=k, arg=ch.draw("exc_type", 4))
+            sched = bw.canonical_sched(hot, line) if ch.chance("fault_canonical", 1, 3) else bw.gen_sched(ch, hot, line)
+            plan = bw.FaultPlan([f])
+            rf = _run(fn, cfg, sched, ch, faults=plan, fill="payload")
+            _count(out, rf)
+            fired = [x for x in plan.fired if x["kind"] == fault_kind]
+            out.sample["runs"].append({"run": "fault", "kind": fault_kind, "task": tname, "at": f["at"], "k": k,
+                                       "fired": [x["site"] for x in fired], "status": rf.status,
+                                       "exc": type(rf.exc).__name__ if rf.exc is not None else None})
+            if not fired:
+                out.stats["fault_unfired"] += 1
+                if not _basic(out, rf, cfg, "run with an armed but unreached fault"):
+                    return out
+            else:
+                out.stats["oracle:fails_cleanly"] += 1
+                site = fired[0]["site"]
+                probs = bw.liveness_problems(rf)
+                if probs:
+                    out.violation("fault-hang",
+                                  "worker %s %s at %s: the call does not raise promptly: %s"
+                                  % (tname, "raised an exception" if fault_kind == "exc" else "died", site, probs[0][1]),
+                                  sig=fault_kind, fault_kind=fault_kind, site=site, cfg=_cfg_str(cfg),
+                                  layout=str(rf.layout), sched=sched["profile"])
+                    out.trace = _trace(rf)
+                    return out
+                if rf.status == "returned":
+                    out.violation("fault-swallowed",
+                                  "worker %s %s at %s but the call returned normally"
+                                  % (tname, "raised an exception" if fault_kind == "exc" else "died", site),
+                                  sig=fault_kind, fault_kind=fault_kind, site=site, cfg=_cfg_str(cfg))
+                    return out
+                lk = bw.leak_problems(rf)
+                if lk:
+                    out.violation("shm-leak", "after a worker failure (%s at %s): %s" % (fault_kind, site, lk[0][1]),
+                                  sig="fault", fault_kind=fault_kind, site=site, cfg=_cfg_str(cfg))
+                    return out
     # ---- variants: same input, same layout, other schedule / worker count / fill / stalls
     for i in range(nvar):
         sched = bw.gen_sched(ch, hot, line)
@@ -285,53 +335,6 @@ def _case_body(ch, out, cfg, content, hot, line, nvar, fault_kind, other_layout,
                               sig=None, cfg=_cfg_str(cfg))
                 return out
 
-    # ---- one worker failure
-    if fault_kind != "none":
-        holders = sorted(n for n, c in r0.worker_yields.items() if n != "main" and c > 0)
-        if holders:
-            tname = holders[ch.draw("fault_task", len(holders))]
-            use_line = bool(line) and ch.chance("fault_at_line", 1, 2) and r0.worker_lines.get(tname, 0) > 0
-            if use_line:
-                k = ch.draw("fault_line", r0.worker_lines[tname])
-                f = dict(kind=fault_kind, task=tname, at="line", k=k, arg=ch.draw("exc_type", 4))
-            else:
-                k = ch.draw("fault_yield", r0.worker_yields[tname])
-                f = dict(kind=fault_kind, task=tname, at="yield", k=k, arg=ch.draw("exc_type", 4))
-            sched = bw.canonical_sched(hot, line) if ch.chance("fault_canonical", 1, 3) else bw.gen_sched(ch, hot, line)
-            plan = bw.FaultPlan([f])
-            rf = _run(fn, cfg, sched, ch, faults=plan, fill="payload")
-            _count(out, rf)
-            fired = [x for x in plan.fired if x["kind"] == fault_kind]
-            out.sample["runs"].append({"run": "fault", "kind": fault_kind, "task": tname, "at": f["at"], "k": k,
-                                       "fired": [x["site"] for x in fired], "status": rf.status,
-                                       "exc": type(rf.exc).__name__ if rf.exc is not None else None})
-            if not fired:
-                out.stats["fault_unfired"] += 1
-                if not _basic(out, rf, cfg, "run with an armed but unreached fault"):
-                    return out
-            else:
-                out.stats["oracle:fails_cleanly"] += 1
-                site = fired[0]["site"]
-                probs = bw.liveness_problems(rf)
-                if probs:
-                    out.violation("fault-hang",
-                                  "worker %s %s at %s: the call does not raise promptly: %s"
-                                  % (tname, "raised an exception" if fault_kind == "exc" else "died", site, probs[0][1]),
-                                  sig=fault_kind, fault_kind=fault_kind, site=site, cfg=_cfg_str(cfg),
-                                  layout=str(rf.layout), sched=sched["profile"])
-                    out.trace = _trace(rf)
-                    return out
-                if rf.status == "returned":
-                    out.violation("fault-swallowed",
-                                  "worker %s %s at %s but the call returned normally"
-                                  % (tname, "raised an exception" if fault_kind == "exc" else "died", site),
-                                  sig=fault_kind, fault_kind=fault_kind, site=site, cfg=_cfg_str(cfg))
-                    return out
-                lk = bw.leak_problems(rf)
-                if lk:
-                    out.violation("shm-leak", "after a worker failure (%s at %s): %s" % (fault_kind, site, lk[0][1]),
-                                  sig="fault", fault_kind=fault_kind, site=site, cfg=_cfg_str(cfg))
-                    return out
     return out
 
 
